@@ -1121,3 +1121,110 @@ def rule_end_removes_outstanding_ids(ctx):
                                  "points at a freed or recycled node" % (f.name, tree[1], g, cbn))
     ctx.floor("ENDDANGLE", 3, n, "(per-file interface trees destroyed while their nodes are registered as ids)")
     return n
+
+
+def rule_table_shrink_keeps_highwater(ctx):
+    """HIGHWATER (C13): SD file ids are positions in the table `_cdfs`; the global high-water mark of used positions bounds every
+    walk over the table in the other routines (`for (i = 0; i < H; i++) .. _cdfs[i]`).  The one routine that replaces the table
+    by one of another size must refuse a size below that high-water mark — the count of *open* files says nothing about where
+    they sit — or the other routines index past the new allocation and the ids of files in the dropped positions turn invalid
+    while the files are still open."""
+    from .facts import kind, strip, walk, render
+    prog = ctx.prog
+    marks = {}
+    for f in prog.lib_funcs():
+        if not f.rel.startswith("mfhdf/src/"):
+            continue
+        for b in f.blocks.values():
+            t = b.get("term")
+            if not t or t.get("cond") is None:
+                continue
+            for c in walk(t["cond"], True):
+                if c[0] == "bin" and c[1] in ("<", "<=") and kind(strip(c[2])) == "var" and kind(strip(c[3])) == "var" and strip(c[3])[2] == "g":
+                    iv, hv = strip(c[2])[1], strip(c[3])[1]
+                    if any(x[0] == "idx" and kind(strip(x[1])) == "var" and strip(x[1])[1] == "_cdfs" and kind(strip(x[2])) == "var" and strip(x[2])[1] == iv for _b, _i, _s, x in f.nodes(True)):
+                        marks.setdefault(hv, set()).add(f.name)
+    n = 0
+    for f in prog.lib_funcs():
+        if not f.rel.startswith("mfhdf/src/"):
+            continue
+        repl = [x for _b, _i, _s, x in f.nodes(True) if x[0] == "asg" and x[1] == "=" and kind(strip(x[2])) == "var" and strip(x[2])[1] == "_cdfs" and kind(strip(x[3])) == "var"]
+        if not repl:
+            continue
+        params = {q[0] for q in f.params}
+        for hv, users in sorted(marks.items()):
+            if hv.endswith("_size") or users == {f.name}:
+                continue
+            n += 1
+            key = "HIGHWATER:%s:%s" % (f.name, hv)
+            ok = False
+            for b in f.blocks.values():
+                t = b.get("term")
+                if t and t.get("cond") is not None:
+                    for c in walk(t["cond"], True):
+                        if c[0] == "bin" and c[1] in ("<", "<=", ">", ">="):
+                            vs = {y[1] for y in walk(c, True) if y[0] == "var"}
+                            if hv in vs and (vs & params):
+                                ok = True
+            if ok:
+                ctx.holds("HIGHWATER", key, f.where(), "the requested size is compared with the high-water mark `%s` (used by %s) before the table is replaced" % (hv, ", ".join(sorted(users))[:60]), nontrivial=True)
+            else:
+                ctx.violated("HIGHWATER", key, f.where(), "%s replaces the table `_cdfs` without comparing the requested size with `%s`, the bound %s use for their walks over it: ids of open files above the new size become invalid" % (f.name, hv, ", ".join(sorted(users))[:60]))
+    ctx.floor("HIGHWATER", 1, n, "(routines that replace the SD file table)")
+    return n
+
+
+class _DoubleRel(PathAnalysis):
+    """user: True while the access record has been handed to the element's own end-access routine and the local still points at it"""
+
+    def __init__(self, prog, var):
+        super().__init__(prog)
+        self.var = var
+        self.bad = []
+        self.handed = 0
+
+    def init_user(self, func):
+        return False
+
+    def on_stmt(self, func, bid, idx, stmt, env, user):
+        from .facts import kind, strip, is_null
+        u = user
+        for x in walk(stmt["e"]):
+            if x[0] == "call" and x[1] is None or (x[0] == "call" and isinstance(x[1], str) and x[1].startswith("(*")):
+                pass
+            if x[0] == "call":
+                tgt = render(x)[:80]
+                args = [strip(a) for a in x[3]]
+                if "endaccess" in tgt and x[1] != "Hendaccess" and any(kind(a) == "var" and a[1] == self.var for a in args) and "special_func" in tgt:
+                    u = True
+                    self.handed += 1
+                elif x[1] == "HIrelease_accrec_node" and any(kind(a) == "var" and a[1] == self.var for a in args) and u:
+                    self.bad.append(stmt.get("l", 0))
+            elif x[0] == "asg" and x[1] == "=" and kind(strip(x[2])) == "var" and strip(x[2])[1] == self.var:
+                u = False
+        return u
+
+
+def rule_record_not_released_twice(ctx):
+    """DOUBLEREL (C13): the end-access routine of a special element releases the access record on every one of its exits (its
+    failure exit included: each of them ends in `if (access_rec != NULL) HIrelease_accrec_node(access_rec)`).  Hendaccess, which dispatches to it, must therefore forget the record once the call has been
+    made: on no path may its own `HIrelease_accrec_node(access_rec)` be reached with the pointer it handed over.  Released twice,
+    the free-list node points at itself, every later access id gets the same record, and concurrently valid ids alias."""
+    prog = ctx.prog
+    f = prog.func("Hendaccess")
+    if f is None:
+        ctx.unrecognised("DOUBLEREL", "DOUBLEREL:Hendaccess", "-", "Hendaccess not found")
+        return 0
+    a = _DoubleRel(prog, "access_rec")
+    a.fails = fail_values(f, prog)
+    a.run(f)
+    key = "DOUBLEREL:Hendaccess"
+    if not a.handed:
+        ctx.unrecognised("DOUBLEREL", key, f.where(), "the dispatch to the special end-access routine was not found")
+        return 0
+    if a.bad:
+        ctx.violated("DOUBLEREL", key, f.where(a.bad[0]), "Hendaccess can release `access_rec` after the special end-access routine has already released it (its failure exit does): the record is on the free list twice")
+    else:
+        ctx.holds("DOUBLEREL", key, f.where(), "after the dispatch to the special end-access routine the local pointer is cleared before any release", nontrivial=True)
+    ctx.floor("DOUBLEREL", 1, 1, "(dispatches of an access record to its element's end-access routine)")
+    return 1
